@@ -36,7 +36,7 @@ var Check = &vrt.Check{
 	ID:    "C08",
 	Level: "exploration",
 	Rule: "inputs: random bytes (0..4 kB, raw and behind a plausible header); for valid canonical streams of small inputs every truncation, every " +
-		"single-bit flip (CRC left alone, and CRC recomputed), header edits (size -1, -2, -2^31, 0, n-1, n+1, n+59..61, 2^31-1; CRC +-1, swapped), crafted " +
+		"single-bit flip (CRC left alone, and CRC recomputed), header edits (size -1, -2, -2^31, 0, n-1, n+1, n+59..61, 2^31-1; CRC +-1, swapped, 0x0000/0xffff/0x0001/0x8000 alone and with body bit flips), crafted " +
 		"overruns (final match of length L, size lowered by 1..L-1, CRC recomputed), trailing bytes, splices of two streams, byte insertions/deletions; a fixed " +
 		"regression list (negative sizes, overruns, short headers) under every source x buffer combination. Each input is read through the real Reader " +
 		"with rotating source readers (bytes.Reader, 1-byte, PRNG 1..7, data+EOF, PRNG 1..4096) and buffers 1, 7, 60, 4096, PRNG, to the end or up to an " +
@@ -547,6 +547,19 @@ func (c *ctx) mutate(idx int, specs []lzwork.Spec, mode string) {
 			t := clone(s)
 			t[0], t[1] = t[1], t[0]
 			c.one(name+":crc-bytes-swapped", t, crc)
+			// distinguished values of the CRC field (a zero or all-ones field must not mean "no checksum"),
+			// alone and together with damage to the body
+			for _, v := range []uint16{0x0000, 0xffff, 0x0001, 0x8000} {
+				t := clone(s)
+				binary.LittleEndian.PutUint16(t, v)
+				c.all(fmt.Sprintf("%s:crc=%#04x", name, v), t, crc)
+				for k := 0; k < 6 && len(t) > 7; k++ {
+					u := clone(t)
+					i := 6 + (k*7919+int(v))%(len(u)-6)
+					u[i] ^= 1 << uint(k%8)
+					c.one(fmt.Sprintf("%s:crc=%#04x+bitflip@%d", name, v, i), u, crc)
+				}
+			}
 		}
 		// (e) crafted overruns: the final symbol is a match of length L, lower the size by 1..L-1
 		if L := lastLen(s, crc); L >= 3 {
